@@ -18,6 +18,13 @@ class HarnessError(Exception):
     """A failure of the harness itself (never reported as a property violation)."""
 
 
+def texc(task: Any) -> BaseException | None:
+    """task.exception() that reports a cancelled task as a CancelledError instance instead of raising it into the harness."""
+    if task.cancelled():
+        return asyncio.CancelledError("task was cancelled")
+    return task.exception()
+
+
 class MemDatagramTransport(asyncio.DatagramTransport):
     def __init__(self, loop: "VLoop", protocol: Any, sockname: tuple[str, int], kind: str = "udp") -> None:
         super().__init__()
